@@ -24,5 +24,25 @@ prop("C10", "other",
      "bounded: extreme-value pool through the whole pipeline.",
      bounded=[B.c10_pipeline])
 
+prop("C07", "other",
+     "Default/description clauses of the parser under contract (deductive) where within PyVC's reach; the end-to-end statement "
+     "(parse, JSON and executed Python serialisation carry exactly the schema's default/description) is checked by bounded enumeration.",
+     bounded=[B.c07_defaults, B.c07_descriptions])
+
+prop("C09", "other",
+     "det@setloop obligations (iteration over set-typed values must not influence outputs) on the generator/parser functions under contract; "
+     "the cross-process statement is exercised by running the real CLI under several PYTHONHASHSEED values (bounded).",
+     bounded=[B.c09_hashseeds])
+
+prop("C05", "other",
+     "Default clauses of Element.__call__/Object.__new__/Properties.__call__/_PropertyDict.required under contract (deductive, where in reach); "
+     "bounded: object schemas x all subsets of supplied properties, every pool element called with no value.",
+     bounded=[B.c05_defaults])
+
+prop("C16", "other",
+     "Register/lookup/type-guard contracts (_FormatString.__call__, register, Format._validate, Validator.__call__[Format]) discharged for all "
+     "names, values and register contents; the built-in uuid/date-time checkers delegate to uuid.UUID and dateutil, whose behaviour is only bounded.",
+     bounded=[B.c16_formats])
+
 NOT_YET = {}
-FIX_COMMITS = ["240c9e2", "ba1006d", "dab453b", "5a0ad53"]
+FIX_COMMITS = ["240c9e2", "ba1006d", "dab453b", "5a0ad53", "5fe75a7", "1c7b42d", "0339f31", "a857da5", "9e872e5", "85d1ad8", "757eca2"]
